@@ -196,35 +196,10 @@ Section Proofs.
   Qed.
 
   (* ------------------------------------------------------------------ Numba boxing *)
-  Lemma wrap_fits (dt : Z * bool) (z : Z) : fits dt z = true -> wrap (fst dt) (snd dt) z = z.
-  Proof.
-    destruct dt as [w sg]; unfold fits, wrap; cbn [fst snd].
-    destruct sg; cbn [andb]; intros H; apply andb_prop in H as [H1 H2].
-    - apply Z.leb_le in H1. apply Z.ltb_lt in H2.
-      assert (Hw : 0 < w).
-      { destruct (Z_lt_le_dec 0 w) as [|Hle]; [assumption | exfalso].
-        assert (2 ^ (w - 1) = 0) by (apply Z.pow_neg_r; lia). lia. }
-      assert (E : 2 ^ w = 2 * 2 ^ (w - 1)).
-      { replace w with (Z.succ (w - 1)) at 1 by lia. apply Z.pow_succ_r. lia. }
-      assert (0 < 2 ^ (w - 1)) by (apply Z.pow_pos_nonneg; lia).
-      destruct (Z_lt_le_dec z 0) as [Hneg | Hpos].
-      + assert (Em : z mod 2 ^ w = z + 2 ^ w).
-        { symmetry. apply (Z.mod_unique _ _ (-1)); lia. }
-        rewrite Em. destruct (Z.leb_spec (2 ^ (w - 1)) (z + 2 ^ w)); lia.
-      + rewrite Z.mod_small by lia. destruct (Z.leb_spec (2 ^ (w - 1)) z); lia.
-    - apply Z.leb_le in H1. apply Z.ltb_lt in H2. apply Z.mod_small. lia.
-  Qed.
-
-  Lemma map_wrap_fits dt (l : list Z) : forallb (fits dt) l = true -> map (wrap (fst dt) (snd dt)) l = l.
-  Proof.
-    induction l as [| a r IH]; cbn [forallb map]; [reflexivity |].
-    intros H. apply andb_prop in H as [Ha Hr]. now rewrite (wrap_fits _ _ Ha), (IH Hr).
-  Qed.
-
+  (* the shape member of the native record is a tuple of intp: the extents pass through unchanged *)
   Lemma nb_roundtrip_unfold dt (c : coo V) :
     nb_roundtrip V dt c =
-    (c' <- coo_ctor V false true (map (wrap (fst dt) (snd dt)) (c_shape c)) (len (c_shape c)) (c_coords c)
-                    (c_data c) (c_fill c) ;; Ok (ACoo c')).
+    (c' <- coo_ctor V false true (c_shape c) (len (c_shape c)) (c_coords c) (c_data c) (c_fill c) ;; Ok (ACoo c')).
   Proof. reflexivity. Qed.
 
   Lemma coo_ctor_boxpath (c : coo V) :
@@ -240,20 +215,21 @@ Section Proofs.
     cbn [andb c_coords]. now rewrite Hrange, Hsorted.
   Qed.
 
-  Lemma numba_boxing_roundtrip_partial_proof dt (c : coo V) :
-    forallb (fun d => 0 <=? d) (c_shape c) = true -> canonicalb c = true -> nb_shape_fits V dt c = true ->
+  Lemma numba_boxing_roundtrip_proof dt (c : coo V) :
+    forallb (fun d => 0 <=? d) (c_shape c) = true -> canonicalb c = true ->
     nb_roundtrip V dt c = Ok (ACoo c).
   Proof.
-    intros Hsh Hc Hf. rewrite nb_roundtrip_unfold. unfold nb_shape_fits in Hf.
-    rewrite (map_wrap_fits _ _ Hf), (coo_ctor_boxpath c Hsh Hc). reflexivity.
+    intros Hsh Hc. rewrite nb_roundtrip_unfold, (coo_ctor_boxpath c Hsh Hc). reflexivity.
   Qed.
 
-  Lemma numba_construct_partial_proof (zero : V) dt (c : coo V) :
+  Lemma nb_construct_typed_always dt sh : nb_construct_typed dt sh = true.
+  Proof. reflexivity. Qed.
+
+  Lemma numba_construct_proof (zero : V) dt (c : coo V) :
     forallb (fun d => 0 <=? d) (c_shape c) = true -> canonicalb c = true -> c_fill c = zero ->
-    nb_construct_typed dt (c_shape c) = true ->
     nb_construct V zero dt c = Ok (ACoo c).
   Proof.
-    intros Hsh Hc Hf Ht. unfold nb_construct. rewrite Ht.
+    intros Hsh Hc Hf. unfold nb_construct. rewrite nb_construct_typed_always.
     change (nb_box V [(s_coords, FMat (len (c_shape c)) (c_coords c)); (s_data, FData (c_data c));
                       (s_shape, FInts (c_shape c)); (s_fill, FScalar zero)])
       with (c' <- coo_ctor V false true (c_shape c) (len (c_shape c)) (c_coords c) (c_data c) zero ;; Ok (ACoo c')).
@@ -278,15 +254,13 @@ Lemma npz_roundtrip_nonvacuous :
      = Ok (AGcxs KGCXS (mkGCXS [2; 3] (Some [0]) [5; 6] [1; 2] [0; 1; 2] 0)).
 Proof. split; [repeat constructor | reflexivity]. Qed.
 
-(* Numba: an int8-coordinate COO of shape (300,) comes back with shape (44,) *)
+(* Numba: the arrays of the former counter-examples (int8 coordinates with an extent of 300; a 0-d array) *)
 Definition w_nb : coo Z := mkCOO [300] [[0]; [1]] [5; 6] 0.
-Lemma numba_boxing_roundtrip_refuted_proof :
-  exists (dt : Z * bool) (c : coo Z),
-    forallb (fun d => 0 <=? d) (c_shape c) = true /\ canonicalb c = true /\
-    nb_roundtrip Z dt c = Ok (ACoo (mkCOO [44] [[0]; [1]] [5; 6] 0)) /\ nb_roundtrip Z dt c <> Ok (ACoo c).
-Proof.
-  exists (8, true), w_nb. repeat split; try (vm_compute; reflexivity). vm_compute. discriminate.
-Qed.
+Definition w_nb_0d : coo Z := mkCOO [] [[]] [7] 0.
+Lemma numba_nonvacuous :
+  Forall (fun c => forallb (fun d => 0 <=? d) (c_shape c) = true /\ canonicalb c = true /\ c_fill c = 0) [w_nb; w_nb_0d]
+  /\ nb_roundtrip Z (8, true) w_nb = Ok (ACoo w_nb) /\ nb_construct Z 0 (8, true) w_nb_0d = Ok (ACoo w_nb_0d).
+Proof. split; [repeat constructor | split; reflexivity]. Qed.
 
 (* ---------------------------------------------------------------------- copy over the heap of buffers *)
 Section CopyProofs.
@@ -680,12 +654,7 @@ Section ContainerProofs.
   Qed.
 End ContainerProofs.
 
-(* the in-Numba constructor does not compile for a 0-d shape *)
-Lemma numba_construct_refuted_proof :
-  exists c : coo Z,
-    forallb (fun d => 0 <=? d) (c_shape c) = true /\ canonicalb c = true /\ c_fill c = 0 /\
-    nb_construct Z 0 (64, true) c = Raise TypeError.
-Proof. exists (mkCOO [] [[]] [7] 0). repeat split. Qed.
+
 
 (* ---------------------------------------------------------------------- the CRC part of the container oracle, proved.
    With [ok] of [Archive ok view] instantiated by what testzip computes (it recomputes the CRC-32 of every member's
